@@ -252,8 +252,8 @@ Proof. unfold store_no_backref. intros E. eapply frame_trans; [apply store_cell_
 Lemma store_frame (m : cmem) a v m' : store COps m a v = Ok m' -> frame m m'.
 Proof.
   unfold store. destruct (negb (v_bits COps v mod 8 =? 0) || (v_bits COps v =? 0)); [discriminate|].
-  intros H.
-  apply bind_ok in H as (after & _ & H). apply bind_ok in H as (vtw & _ & H).
+  destruct (USIZE <? a + v_bits COps v / 8); [discriminate|]. intros H.
+  apply bind_ok in H as (vtw & _ & H).
   apply bind_ok in H as (m1 & H1 & H). apply bind_ok in H as (vtw2 & _ & H). apply bind_ok in H as (m2 & H2 & H).
   assert (F1: frame m m1).
   { destruct vtw as [w|]; [eapply snb_frame, H1|]. injection H1 as <-. apply frame_refl. }
